@@ -417,15 +417,29 @@ def _taylor_exp(t, order=5):
     return N.rebuild(t, fatom)
 
 
+class Diverges(Exception):
+    pass
+
+
 def _limit0(f, var):
     """limit of a rational function as var -> 0 (l'Hopital on numerator and denominator polynomials)"""
     num, den = N.NF(f.num), N.NF(f.den)
+    # clear negative powers of var (Laurent terms) so that both are regular at 0
+    low = 0
+    for poly in (f.num, f.den):
+        for mono in poly:
+            for a, e in mono:
+                if a == ('sym', var) and e < low:
+                    low = e
+    if low < 0:
+        shift = N.sym(var) ** (-low)
+        num, den = num * shift, den * shift
     for _ in range(12):
         a, b = N.subs(num, {var: 0}), N.subs(den, {var: 0})
         if not b.is_zero():
             return a / b
         if not a.is_zero():
-            raise Unsupported('the expression diverges as %s -> 0' % var)
+            raise Diverges('the expression diverges as %s -> 0' % var)
         num, den = N.diff(num, var), N.diff(den, var)
     raise Unsupported('limit not reached')
 
@@ -490,7 +504,7 @@ def rule_koyama_bending(ctx, rule='R11.b'):
                 r2 = N.subs(A2, sub) + N.subs(B2, sub) * eps - cos2
                 if not r2.is_zero():
                     bad.append('linearised branch: cos2 differs from cos_sq_avg(0) + cos_sq_avg\'(0)*epsilon by %s' % N.show(r2)[:160])
-    except (Unsupported, Raised, ValueError) as ex:
+    except (Unsupported, Raised, ValueError, Diverges) as ex:
         ctx.undecided(rule, construct, str(ex), m.loc())
         return
     if bad:
@@ -575,6 +589,81 @@ def rule_koyama_rejection(ctx, rule='R11.v'):
         ctx.holds('R11.s', construct, 'math.* functions receive scalars only', m.loc())
 
 
+def _nfjc_normalisation(ctx, qual, m, body, rule='R11.n'):
+    """The property's k -> 0 clause for the non-overlap correction: omega(k) -> N requires every omega_tau(k) -> 1, i.e. the
+    correction of each separation tau vanishes as k -> 0.  Decided from the extracted summand in two steps:
+      (1) integrand identity: the k -> 0 limit of the integrand of J_tau(k) (computed with l'Hopital on the extracted
+          expression, tau symbolic) is the integrand of the constant J_tau(0) that the code integrates separately, with the
+          factor 2/pi the code uses -- so J_tau(k) -> J_tau(0);
+      (2) with J_tau(k) := J_tau(0) and sin(k)/k := 1 the summand is identically zero.
+    The integration grid must be the same increasing grid in both integrals."""
+    try:
+        ints = [a for a in body.all_atoms() if a[0] == 'fn' and a[1] == 'intx']
+        with_k = [a for a in ints if any(x[0] == 'fn' and x[1] == 'mesh0' for x in N.nf_from_key(a[2]).all_atoms())]
+        without = [a for a in ints if a not in with_k]
+        if len(with_k) != 1 or len(without) != 1:
+            raise Unsupported('expected one k-dependent and one k-independent quadrature, found %d and %d' % (len(with_k), len(without)))
+        I1, I0 = with_k[0], without[0]
+        if I1[3] != I0[3]:
+            raise Unsupported('the two quadratures use different grids')
+        grid = N.nf_from_key(I0[3])
+        far = [a for a in grid.all_atoms() if a[0] == 'fn' and a[1] == 'farange']
+        bad = []
+        for a in far:
+            lo, hi, st = (N.nf_from_key(x) for x in a[2:5])
+            if lo.is_const() and hi.is_const() and st.is_const() and not (lo.const_value() < hi.const_value() and st.const_value() > 0):
+                bad.append('the quadrature grid arange(%s, %s, %s) is empty' % (N.show(lo), N.show(hi), N.show(st)))
+        K, X = N.sym('K'), N.sym('X')
+
+        def to_kx(t):
+            def leaf(a):
+                if a[0] == 'fn' and a[1] == 'mesh0':
+                    return K
+                if a[0] == 'fn' and a[1] in ('mesh1', 'farange'):
+                    return X
+                return None
+            return N.transform(t, leaf)
+        g, f0 = to_kx(N.nf_from_key(I1[2])), to_kx(N.nf_from_key(I0[2]))
+        # the constant the code multiplies the k-independent quadrature with: read it off the summand (coefficient of I0 in
+        # the normalisation 1 - c*I0); with the integrand identity lim g = c*f0 the two quadratures agree at k -> 0
+        try:
+            lim = _limit0(g, 'K')
+        except Diverges:
+            ctx.violation(rule, qual, 'normalisation', 'the integrand of J(k) diverges as k -> 0 (omega(k -> 0) is not finite): %s'
+                          % N.show(g)[:160], m.loc())
+            return
+        ratio = None
+        if not f0.is_zero():
+            q = lim / f0
+            if not (q.symbols() & {'X', 'K'}):
+                ratio = q
+        if ratio is None:
+            bad.append('the k -> 0 limit of the J(k) integrand, %s, is not a constant multiple of the J(0) integrand %s'
+                       % (N.show(lim)[:120], N.show(f0)[:120]))
+        else:
+            def leaf2(a):
+                if a == I1:
+                    return ratio * N.NF.atom(I0)
+                if a[0] == 'fn' and a[1] == 'sin' and N.nf_from_key(a[2]).equals(N.sym('k')):
+                    return N.sym('k')
+                return None
+            try:
+                at0 = N.transform(body, leaf2)
+                if not at0.is_zero():
+                    bad.append('with J(k) -> J(0) and sin(k)/k -> 1 the correction of separation tau tends to %s, not 0: omega(k -> 0) '
+                               'differs from N' % N.show(at0)[:160])
+            except ZeroDivisionError:
+                bad.append('the correction of separation tau diverges as k -> 0')
+    except (Unsupported, N.Incomplete) as e:
+        ctx.undecided(rule, qual, str(e), m.loc())
+        return
+    if bad:
+        ctx.violation(rule, qual, 'normalisation', '; '.join(bad), m.loc())
+    else:
+        ctx.holds(rule, qual, 'lim_{k->0} of the J(k) integrand == %s * the J(0) integrand (tau symbolic), and with J(k) -> J(0), '
+                  'sin(k)/k -> 1 every correction term vanishes: omega(k -> 0) = N' % N.show(ratio), m.loc())
+
+
 def rule_nfjc(ctx, rule='R11.e'):
     qual = OM + 'NonOverlappingFreelyJointedChain::NonOverlappingFreelyJointedChain'
     cls = ctx.prog.cls(qual)
@@ -600,6 +689,7 @@ def rule_nfjc(ctx, rule='R11.e'):
         if ok:
             ctx.holds('R11.d', qual, 'omega == FJC closed form + (2/N) sum_{tau=2}^{N-1} (N-tau) * correction(tau) '
                       '(quadrature accuracy of the correction is not decided)', m.loc())
+            _nfjc_normalisation(ctx, qual, m, body)
         else:
             ctx.violation('R11.d', qual, 'structure', 'non-overlap correction is not summed over tau=2..N-1 with multiplicity N-tau: range [%s,%s)'
                           % (N.show(lo), N.show(hi)), m.loc())
